@@ -269,6 +269,16 @@ def main():
         mod = importlib.import_module(cfg["harness"])
         rng = random.Random(seed * 1000003 + int(pid[1:]))
         n = args.cases or cfg[tier]
+        # where the source is not the one the model was audited against, explore more deeply (never a verdict by itself)
+        try:
+            import fingerprints
+            changed_fns = fingerprints.changed("/repo")
+        except Exception:  # noqa: BLE001
+            changed_fns = []
+        if changed_fns and not args.cases:
+            n = n * (6 if tier == "quick" else 2)
+            log(f"{pid}: the source differs from the audited baseline in {len(changed_fns)} definition(s) "
+                f"({', '.join(changed_fns[:4])}{' …' if len(changed_fns) > 4 else ''}): exploring {n} cases")
         res = core.Results()
         cases = mod.generate(rng, n, tier)
         # run in chunks so that memory stays flat
@@ -358,6 +368,7 @@ def main():
                 "known_findings_seen": sorted(known_hits),
                 "failing_input_search_cases": searched,
                 "counters": dict(sorted(res.counters.items())),
+                "source_definitions_changed_since_audit": changed_fns[:50],
                 "exhaustive": False,
             },
             "assumptions": TRUSTED_BASE,
